@@ -68,6 +68,20 @@ def run (ctx):
              "`%s` announces an id that does not come from %s (origins of `%s`: %s): e.g. the id of a slot that already holds this packet - a slot the use-and-free routine releases right after the actions ran, so the "
              "announced id identifies no stored packet when the controller uses it" % (norm(c_)[:60], alloc.name, norm(a_), [norm(v_)[:40] for v_, st_, k_ in q.reaching_assign(f_.node, a_.id)] if isinstance(a_, ast.Name) else norm(a_)), (sw.module, c_), 'D1')
   ctx.floor('packet-in announcement sites', n_ann, 2)
+  # the bytes a packet-in carries are the frame as it is now: taken from pack() (or handed in by the caller), never from the parse-time
+  # copy `.raw`, which goes stale as soon as an action rewrites or re-tags the frame before it comes back through OFPP_TABLE
+  for f_ in sw.methods.values():
+    for c_ in calls_in(f_.node, nested=True):
+      if call_name(c_) != 'send_packet_in' or not isinstance(c_.func, ast.Attribute): continue
+      a_ = kwarg(c_, 'packet', 2)
+      if a_ is None: continue
+      exprs = [a_]
+      if isinstance(a_, ast.Name): exprs = [v_ for v_, st_, k_ in q.reaching_assign(f_.node, a_.id) if v_ is not None] or [a_]
+      stale = [e_ for e_ in exprs if any(isinstance(x_, ast.Attribute) and x_.attr == 'raw' for x_ in ast.walk(e_))]
+      ctx.ob('R-AGREE', f_, "packet-in data is the frame's current bytes (`%s`)" % norm(a_)[:30], not stale, "pack() / caller's bytes" if not stale else
+             "`%s` can be the frame's parse-time copy: after a set-field / VLAN action rewrote the frame (packet-out ... output:TABLE, then a miss) the packet-in describes the old bytes - its data is not a prefix of the stored "
+             "frame and total_len is the old length" % norm(stale[0])[:60], (sw.module, stale[0]) if stale else f_, 'D4')
+  packet_truth_tests(ctx, repo, sw, 'D3')
   # ---- D1 ownership -------------------------------------------------------
   writers = 0
   allowed = {alloc.qual, use.qual}
@@ -583,3 +597,28 @@ def _subscript_index (st):
   for t in (st.targets if isinstance(st, ast.Assign) else []):
     if isinstance(t, ast.Subscript): return norm(t.slice)
   return None
+
+
+def packet_truth_tests (ctx, repo, sw, clause):
+  """packet_base.__bool__ is the `parsed` flag: a frame that was built (or a runt that did not parse) is falsy.  The switch's action
+  and output code never takes a packet object's truth value for "there is a packet" (shared with C12)."""
+  pbm = repo.mod('lib.packet.packet_base'); pbc = pbm.classes.get('packet_base')
+  pb_bool = pbc.methods.get('__bool__') if pbc is not None else None
+  if pb_bool is None or not any(isinstance(x_, ast.Attribute) and x_.attr == 'parsed' for x_ in ast.walk(pb_bool.node)): return
+  n = 0
+  for f_ in sw.methods.values():
+    names = set(p_ for p_ in f_.params if p_ == 'packet')
+    if not names: continue
+    n += 1
+    for x_ in walk_no_nested(f_.node):
+      hit = None
+      if isinstance(x_, (ast.If, ast.While, ast.IfExp)):
+        t_ = x_.test
+        if isinstance(t_, ast.UnaryOp) and isinstance(t_.op, ast.Not): t_ = t_.operand
+        if isinstance(t_, ast.Name) and t_.id in names: hit = x_.test
+      elif isinstance(x_, ast.BoolOp) and isinstance(x_.values[0], ast.Name) and x_.values[0].id in names: hit = x_
+      if hit is None: continue
+      ctx.bad('R-AGREE', f_, "a packet's presence is not decided by its truth value (`%s`)" % norm(hit)[:30],
+              "`%s` is false for every frame whose `parsed` flag is not set (packet_base.__bool__) - a frame built in-process or one that did not parse: the action list stops after the first action, so a buffered frame released with "
+              "[set_dl_dst, output] is freed but never emitted" % norm(hit)[:30], (sw.module, hit), clause)
+  ctx.floor('switch methods handling a packet object', n, 10)
